@@ -9,6 +9,7 @@ mod m_strindex;
 mod m_parser;
 mod m_cmp;
 mod m_sliceiter;
+mod m_chars;
 
 use common::*;
 use rand::{rngs::SmallRng, SeedableRng};
@@ -23,6 +24,7 @@ fn replay_line(s: &mut Summary, v: &V) {
         "Parser" => m_parser::replay(s, v),
         "Cmp" => m_cmp::replay(s, v),
         "SliceIter" => m_sliceiter::replay(s, v),
+        "Chars" => m_chars::replay(s, v),
         m => panic!("kh: unknown module {m}"),
     }
 }
@@ -64,6 +66,9 @@ fn main() {
             let n: usize = args[4].parse().expect("n_events");
             let mut out = BufWriter::new(std::fs::File::create(&args[5]).expect("create trace"));
             let mut rng = SmallRng::seed_from_u64(seed);
+            // a panic of the code under test while a history is being recorded is an observation:
+            // it is logged as a final {"ev":"panic"} event, which no action of a trace spec accepts
+            let r = std::panic::catch_unwind(std::panic::AssertUnwindSafe(|| {
             match module {
                 "Matcher" => m_matcher::record(&mut rng, n, &mut out),
                 "StripTrim" => m_striptrim::record(&mut rng, n, &mut out),
@@ -72,7 +77,14 @@ fn main() {
                 "Parser" => m_parser::record(&mut rng, n, &mut out),
                 "Cmp" => m_cmp::record(&mut rng, n, &mut out),
                 "SliceIter" => m_sliceiter::record(&mut rng, n, &mut out),
+                "Chars" => m_chars::record(&mut rng, n, &mut out),
+                // seed = first block, n = number of 256-value blocks
+                "CharSweep" => m_chars::record_sweep(seed as u32, n as u32, &mut out),
                 m => panic!("kh: unknown module {m}"),
+            }
+            }));
+            if r.is_err() {
+                writeln!(out, "{}", serde_json::json!({"ev": "panic", "what": "the code under test panicked during this history"})).unwrap();
             }
             out.flush().unwrap();
         }
